@@ -170,6 +170,7 @@ def run(ctx):
 
     degrees_from_edge_lists(ctx, prog, flows, "R-C12-7", ("get_node_weighted_in_degree", "get_node_weighted_out_degree", "get_node_in_degree", "get_node_out_degree", "get_node_degree", "get_node_weighted_degree"), "the degree sums and m of the modularity formula count a bundle of parallel edges once (at its smallest weight) while L_c counts every edge")
     modularity_formula(ctx, prog, flows, mo)
+    resolution_as_given(ctx, prog, flows, mo)
     from props.c09 import degree_maps_keyed_by_node_list
 
     degree_maps_keyed_by_node_list(ctx, prog, flows, "R-C12-10", "modularity looks every member of a community up in these maps and unwraps: for a true partition that contains an isolated node the call panics instead of returning the value")
@@ -328,3 +329,40 @@ def modularity_formula(ctx, prog, flows, mo):
         ctx.require(not bad, "R-C12-9", "term|%d" % n_r, "the per-community term is %s" % " / ".join(sorted(ok)),
                     "the per-community term of modularity is not L_c/m - resolution * O * I * norm: at (L_c, O, I, R, m, norm) = %s it evaluates to %s where the definition gives %s" % (grid_c[0], [round(f[0], 6) for f in bad], round(allowed["L_c/m - R*O*I*norm"](grid_c[0]), 6)), loc_str(st.span))
     ctx.floor("R-C12-9", "term_definitions", n_r, 1)
+
+
+OPTION_REPLACERS = {"filter", "and_then", "and", "or", "or_else", "xor", "take_if", "map", "zip", "replace", "take", "max", "min", "clamp"}
+
+
+def resolution_as_given(ctx, prog, flows, mo):
+    """R-C12-11: "resolution" in the statement's expression is the caller's number: the Option<f64> parameter is only
+    opened with its default (unwrap_or(1.0) / map_or ..).  An operation that replaces or drops some values on the way
+    (filter(is_normal) turns Some(0.0) into the default, a clamp, a max) computes the expression for a DIFFERENT
+    resolution than the one asked for -- for exactly those values, which no ordinary call uses."""
+    ctx.rule("R-C12-11", "the resolution parameter reaches the formula through its default only (unwrap_or(1.0)): no filtering / replacing operation on the Option or on the number")
+    n = 0
+    for cb in [mo] + list(prog.closures_of(mo.path)):
+        fl = flows.of(cb)
+        for t in cb.calls():
+            if not t.callee or not t.args or t.args[0].place is None:
+                continue
+            ty = t.args[0].place.ty or ""
+            if not (ty.startswith("std::option::Option<f64") or ty.startswith("&std::option::Option<f64") or ty == "f64"):
+                continue
+            d = panic.norm(fl.describe(t.args[0], depth=8))
+            from flow import desc_mentions as _dm
+
+            if not _dm(d, lambda x: isinstance(x, tuple) and x[0] == "place" and x[1].split(".")[0].lstrip("^*&") == "resolution"):
+                continue
+            last = t.callee.short.split("::")[-1]
+            n += 1
+            if last in ("unwrap_or",) and len(t.args) > 1:
+                dv = panic.norm(fl.describe(t.args[1], depth=4))
+                okc = dv[0] == "const" and dv[1].replace("const ", "").startswith("1")
+                ctx.require(okc, "R-C12-11", "default|%s" % cb.short.split("::")[-1], "a missing resolution defaults to 1", "a missing resolution defaults to %s, not 1" % fmt_desc(dv), loc_str(t.span))
+                continue
+            ctx.require(last not in OPTION_REPLACERS, "R-C12-11", "as-given|%s|%s" % (cb.short.split("::")[-1], last), "resolution passes through %s unchanged" % last,
+                        "the resolution passes through `%s` before it reaches the formula: for the values that operation replaces or drops (Some(0.0) under filter(is_normal), say) modularity is computed with another resolution than the one the caller gave" % last, loc_str(t.span))
+    if mo.param_local("resolution") is None:
+        ctx.anchor_lost("R-C12-11", "the `resolution` parameter of modularity")
+    ctx.counters["calls_on_resolution"] = n  # a `match resolution { Some(r) => r, None => 1.0 }` has none: no floor
